@@ -384,4 +384,65 @@ theorem delay_measure (z : Tok α) : ∀ n, ∃ μ, DelMeasure (delay z n) (fun 
     obtain ⟨μ, h⟩ := delay_measure z n
     exact ⟨_, ((pipeValid_front z).comp h).congr (fun _ => ⟨fun _ => ⟨trivial, trivial⟩, fun _ => trivial⟩)⟩
 
+/-- Sharper form for the gate: the producer holds valid/payload/first/last of a refused token (`GateHoldsIn`, no
+    demand on `enable`), and whoever drives `enable` holds it while a token waits at the *source*
+    (`EnableHeld`). -/
+def GateHoldsIn (i i' : In (α × Bool)) (sinkReady : Bool) : Prop :=
+  i.valid = true → sinkReady = false →
+    (i'.valid = true ∧ i'.tok.data.1 = i.tok.data.1 ∧ i'.tok.first = i.tok.first ∧ i'.tok.last = i.tok.last)
+
+def EnableHeld (i i' : In (α × Bool)) (o : Out α) : Prop :=
+  o.valid = true → i.ready = false → i'.tok.data.2 = i.tok.data.2
+
+theorem gate_hold_sharp (srd : Bool) (z : α) (i i' : In (α × Bool))
+    (hin : GateHoldsIn i i' ((gate srd z).out () i).ready) (hen : EnableHeld i i' ((gate srd z).out () i)) :
+    HoldsOut ((gate srd z).out () i) ((gate srd z).out ((gate srd z).step () i) i') i := by
+  obtain ⟨iv, ⟨⟨ip, ie⟩, ifi, ila⟩, ir⟩ := i
+  obtain ⟨jv, ⟨⟨jp, je⟩, jfi, jla⟩, jr⟩ := i'
+  intro hv hr
+  simp only [gate, Elem.out, GateHoldsIn, EnableHeld] at *
+  cases ie with
+  | false => simp at hv
+  | true =>
+    simp only [if_true] at hv hin hen ⊢
+    subst hv; subst hr
+    obtain ⟨h1, h2, h3, h4⟩ := hin rfl rfl
+    have h5 := hen rfl rfl
+    subst h1; subst h2; subst h3; subst h4; subst h5
+    simp
+
+/-! ### Pipeline(PipeValid, SyncFIFO, PipeReady): a handshake in every cooperative cycle -/
+
+theorem chain3_hs_window (depth : Nat) (hd : 0 < depth) (z : Tok α)
+    (s : PVState α × List (Tok α) × PRState α) (hs : prInv s.2.2) (ins : List (In α))
+    (hc : ∀ i ∈ ins, Coop i) (hlen : ins.length = 1) :
+    1 ≤ ((pipeValid z).comp ((syncFifo depth z).comp (pipeReady z))).hsCount s ins := by
+  match ins, hlen with
+  | [i], _ =>
+    obtain ⟨hv, hr⟩ := hc i (by simp)
+    obtain ⟨iv, it, ir⟩ := i
+    obtain ⟨⟨av, at_⟩, q, ⟨bv, bdv, bt⟩⟩ := s
+    simp only at hv hr; subst hv; subst hr
+    unfold prInv at hs
+    simp only at hs
+    have h0 : ¬ (0 = depth) := by omega
+    unfold hsCount
+    cases bv with
+    | true =>
+      -- PipeReady holds a parked (valid) token: it is delivered
+      have hb : bdv = true := hs rfl
+      subst hb
+      refine Nat.le_trans ?_ (Nat.le_add_left _ _)
+      simp [delivered, delNow, Elem.comp, pipeReady, Elem.out]
+    | false =>
+      cases q with
+      | cons x xs =>
+        -- the FIFO offers, PipeReady passes it through: delivered
+        refine Nat.le_trans ?_ (Nat.le_add_left _ _)
+        simp [delivered, delNow, Elem.comp, pipeReady, syncFifo, Elem.out]
+      | nil =>
+        -- empty FIFO is writable, so PipeValid's consumer is ready: accepted
+        refine Nat.le_trans ?_ (Nat.le_add_right _ _)
+        simp [accepted, accNow, Elem.comp, pipeValid, syncFifo, Elem.out, h0]
+
 end Litex.Stream
